@@ -24,6 +24,94 @@ _get_ident = _thread.get_ident
 
 CUR = None  # the Sched of the run in progress (one per process at a time)
 
+# ------------------------------------------------------------------------------------------------
+# line mode: every line of the library's own functions is a pre-emption point (monitor-only jobs; no new trace events)
+# ------------------------------------------------------------------------------------------------
+LINE_MODE = False          # set by a job; Sched.run() turns the monitoring on for its run
+LINE_MODULES = ("signals", "lock", "queues", "threads", "till", "python", "commands")
+_LINE_TOOL = 3
+_line_codes = None
+
+
+def _module_codes():
+    """the code objects of every function and method defined in the library's modules (nested ones too)"""
+    global _line_codes
+    if _line_codes is not None:
+        return _line_codes
+    import types
+    import importlib
+    seen, out = set(), []
+
+    def add(code):
+        if id(code) in seen:
+            return
+        seen.add(id(code))
+        out.append(code)
+        for c in code.co_consts:
+            if isinstance(c, types.CodeType):
+                add(c)
+    for name in LINE_MODULES:
+        try:
+            mod = importlib.import_module("mo_threads." + name)
+        except Exception:   # noqa
+            continue
+        fn = getattr(mod, "__file__", "")
+        for obj in list(vars(mod).values()):
+            cands = []
+            if isinstance(obj, types.FunctionType):
+                cands.append(obj)
+            elif isinstance(obj, type):
+                for v in vars(obj).values():
+                    f = getattr(v, "__func__", v)
+                    if isinstance(f, types.FunctionType):
+                        cands.append(f)
+                    elif isinstance(v, property):
+                        cands.extend(x for x in (v.fget, v.fset) if isinstance(x, types.FunctionType))
+            for f in cands:
+                if f.__code__.co_filename == fn:
+                    add(f.__code__)
+    _line_codes = out
+    return out
+
+
+def _on_line(code, lineno):
+    s = CUR
+    if s is None or s.abort:
+        return
+    vt = s.by_ident.get(_get_ident())
+    if vt is None or vt.in_line:
+        return
+    vt.in_line = True
+    try:
+        s.yield_point(("line", lineno))
+    finally:
+        vt.in_line = False
+
+
+def line_mode_on():
+    mon = sys.monitoring
+    try:
+        mon.use_tool_id(_LINE_TOOL, "verif-lines")
+    except ValueError:
+        pass
+    mon.register_callback(_LINE_TOOL, mon.events.LINE, _on_line)
+    for code in _module_codes():
+        mon.set_local_events(_LINE_TOOL, code, mon.events.LINE)
+
+
+def line_mode_off():
+    mon = sys.monitoring
+    for code in _module_codes():
+        try:
+            mon.set_local_events(_LINE_TOOL, code, 0)
+        except ValueError:
+            pass
+    try:
+        mon.register_callback(_LINE_TOOL, mon.events.LINE, None)
+        mon.free_tool_id(_LINE_TOOL)
+    except ValueError:
+        pass
+
 ADVANCE = "<advance>"
 
 
@@ -37,7 +125,7 @@ class Deadline(Exception):
 
 class VT(object):
     __slots__ = ("name", "idx", "sem", "pending", "state", "os_thread", "fn", "exc", "result",
-                 "timekeeper", "background", "shim", "steps", "ident", "atomic", "timed_out")
+                 "timekeeper", "background", "shim", "steps", "ident", "atomic", "timed_out", "in_line")
 
     def __init__(self, name, idx, fn):
         self.name = name
@@ -56,6 +144,7 @@ class VT(object):
         self.ident = None
         self.atomic = 0           # >0: inside a section a harness declared atomic (no pre-emption)
         self.timed_out = False    # its pending timed acquire has been given its timeout
+        self.in_line = False      # inside the line-mode callback
 
     def __repr__(self):
         return "VT(%s)" % self.name
@@ -207,6 +296,11 @@ class Sched(object):
     def run(self):
         global CUR
         CUR = self
+        lines_on = False
+        if LINE_MODE:
+            line_mode_on()
+            lines_on = True
+            self.max_steps *= 6
         try:
             while True:
                 ready = [vt for vt in self.vts if vt.state == "ready"]
@@ -273,6 +367,8 @@ class Sched(object):
         finally:
             self.teardown()
             CUR = None
+            if lines_on:
+                line_mode_off()
         return self.outcome
 
     def _bg_useful(self):
